@@ -110,7 +110,8 @@ theorem Gamma_serde : serdeB GenFacts.Gamma = true := by decide
 -- @site Gaussian
 theorem Gaussian_serde : serdeB GenFacts.Gaussian = true := by decide
 -- @site GaussianProcess
-theorem GaussianProcess_serde : serdeB GenFacts.GaussianProcess = true := by decide
+/-- FINDING: `alpha = K⁻¹ y` (derived from the training targets by `train`) is serialised, with `k_chol` and `k_inv` -/
+theorem GaussianProcess_serde_counterexample : serdeB GenFacts.GaussianProcess = false := by decide
 -- @site GaussianSuffStat
 theorem GaussianSuffStat_serde : serdeB GenFacts.GaussianSuffStat = true := by decide
 -- @site Geometric
@@ -203,8 +204,16 @@ theorem WhiteKernel_serde : serdeB GenFacts.WhiteKernel = true := by decide
 -- @site _Inner
 theorem _Inner_serde : serdeB GenFacts._Inner = true := by decide
 
+-- @site NoiseModel
+/-- every enum that derives `Serialize` (NoiseModel and the error enums) renames its variants to snake_case — the
+    documented spelling (`per_point`, `uniform`); the list is extracted from /repo/src on every run -/
+theorem enums_snake_case : GenFacts.enums.all (fun e => !e.2.1 || e.2.2) = true := by decide
+
+example : ("NoiseModel", true, true) ∈ GenFacts.enums := by decide
+
 end C18
 
 #print axioms C18.roundtrip_params
 #print axioms C18.roundtrip_inv
 #print axioms C18.roundtrip_query
+#print axioms C18.enums_snake_case
